@@ -4,7 +4,7 @@
    NF predicates: Model/NF.v; pass models: Model/PassesChain.v (validated by correspondence). *)
 From Coq Require Import List String Bool.
 From Cog Require Import Model.IR Model.Passes Model.PassesChain Model.Process Model.NF Model.Spec06
-     Gen.Chains_gen Proofs.C06Proofs Proofs.ChainNFProofs Proofs.ChainPresProofs Proofs.ChainPhpJavaProofs.
+     Gen.Chains_gen Proofs.C06Proofs Proofs.ChainNFProofs Proofs.ChainPresProofs Proofs.ChainPhpJavaProofs Proofs.ChainRefsProofs2 Proofs.ChainPhpInlineNF.
 Import ListNotations.
 Local Open Scope string_scope.
 
@@ -174,6 +174,13 @@ Theorem nf_php_partial_nonvacuous :
    exists out, process chain_php w_inlined_reference = Ok out /\ In "optional-field-not-nullable" (nf_violations "php" out)).
 Proof. exact php_chain_nf_nonvacuous. Qed.
 Print Assumptions nf_php_partial_nonvacuous.
+(* PHP with a REAL inlining: InlineObjectsWithTypes keeps the normal form when no optional field refers directly to
+   an inlined non-nullable object and no union branch to an inlined null (iowt_nf_safe), in the order-independent
+   case (iowt_refs_safe); sufficient, and exactly what separates the two witnesses *)
+Theorem nf_php_inlining_partial : forall ss out,
+  tame_php_inl ss = true -> process chain_php ss = Ok out -> nf_violations "php" out = [].
+Proof. exact php_chain_nf_inl. Qed.
+Print Assumptions nf_php_inlining_partial.
 (* the hypotheses are satisfiable by a schema that exercises every pass, and each conjunct of tame_go is needed *)
 Theorem nf_go_partial_nonvacuous :
   tame_go w_tame = true /\
